@@ -338,6 +338,7 @@ def run_seq(case):
     if case.get("namespaced"):
         from dulwich.refs import NamespacedRefsContainer
     trace = []
+    leftover_cause = {}
     try:
         for step, op in enumerate(ops):
             kind = op[0]
@@ -397,7 +398,7 @@ def run_seq(case):
                 below = any(r.startswith(tname + b"/") for r in pre)
                 above = [r for r in pre if tname.startswith(r + b"/")]
                 if os.path.isdir(pth) and not below:
-                    tag = "/leftover-empty-dir"
+                    tag = "/leftover-empty-dir-after-" + leftover_cause.get(tname, "unknown")
                 elif any(os.path.isdir(os.path.join(gitdir.encode(), tname[:i])) and tname[:i] not in pre and
                          not any(r.startswith(tname[:i] + b"/") for r in pre) for i in range(len(tname)) if tname[i:i + 1] == b"/" and i > 5):
                     tag = ""
@@ -450,6 +451,14 @@ def run_seq(case):
                 if bname == "files" and tag:
                     for v in viol[nviol:]:
                         v["sig"] += tag
+                if bname == "files":
+                    # which operation left an empty directory behind (mechanism of the residue, used in later signatures)
+                    outcome = "raised" if exc is not None else ("refused-or-failed" if got is False else "succeeded")
+                    for base_, dirs_, files_ in os.walk(os.path.join(gitdir.encode(), b"refs")):
+                        if not dirs_ and not files_:
+                            rel_ = os.path.relpath(base_, gitdir.encode())
+                            if rel_ not in (b"refs/heads", b"refs/tags", b"refs/remotes", b"refs") and rel_ not in leftover_cause:
+                                leftover_cause[rel_] = "%s-%s" % ({"set": "conditional-set", "del": "conditional-delete", "add": "add_if_new"}.get(kind, kind), outcome)
                 if viol:
                     break
             if viol:
